@@ -27,7 +27,7 @@ SCENARIOS = {
     # pid -> list of (name, argv, counts-as-evaluations)
     "C07": [("frame-search", ["frame-search"]), ("frame-deep", ["frame-deep", "200000"])],
     "C08": [("frame-search", ["frame-search"]), ("conn-search", ["conn-search"]), ("decimal-search", ["decimal-search", "10000000"])],
-    "C06": [("conn-search", ["conn-search"]), ("cmd-search", ["cmd-search"])],
+    "C06": [("frame-search", ["frame-search"]), ("conn-search", ["conn-search"])] + [("server-search", ["server-search", str(i)]) for i in range(24)],
 }
 KNOWN_SCENARIOS = {
     # scenarios that re-confirm an open known finding on the real code: (kind, argv)
